@@ -1,16 +1,16 @@
 #!/bin/bash
 # bencheck.sh <worktree-id> [checks...]: a behaviour-preserving change in /tmp/mut/<id> must pass the
 # baseline tests and leave every listed check (default: all 20, quick tier) silent.  /repo is not touched.
-ID=$1; shift; W=/tmp/mut/$ID
+V=${VERIF_DIR:-/verif}; ID=$1; shift; W=/tmp/mut/$ID
 CHECKS=${@:-C01 C02 C03 C04 C05 C06 C07 C08 C09 C10 C11 C12 C13 C14 C15 C16 C17 C18 C19 C20}
 export CARGO_NET_OFFLINE=true RUST_BACKTRACE=0
 ( cd $W; export CARGO_TARGET_DIR=/tmp/mut/target_confirm_$ID; touch src/main.rs
   cargo test --offline 2>&1 | grep -E "^test result|FAILED|error" | head -5; rm -rf /tmp/mut/target_confirm_$ID )
-[ -d /verif/target/harness_$ID ] || cp -a /verif/target/harness /verif/target/harness_$ID
-cd /verif
+[ -d $V/target/harness_$ID ] || cp -a $V/target/harness $V/target/harness_$ID
+cd $V
 for c in $CHECKS; do
   t=$(date +%s)
   VERIF_REPO=$W bin/vf check $c --tier quick > /tmp/mut/ben_${ID}_$c.log 2>&1; e=$?
   echo "$ID $c exit $e $(( $(date +%s)-t ))s $(grep -c '^DRIFT' /tmp/mut/ben_${ID}_$c.log) drift $(grep -m1 -E 'VIOLATION|tool error|ToolError' /tmp/mut/ben_${ID}_$c.log)"
 done
-rm -rf /verif/target/harness_$ID /verif/target/e2e_$ID /verif/work/*_$ID /verif/evidence_$ID /verif/replays_$ID
+rm -rf $V/target/harness_$ID $V/target/e2e_$ID $V/work/*_$ID $V/evidence_$ID $V/replays_$ID
